@@ -1,4 +1,8 @@
-"""Per-property configuration of the checks (read by tools/check.py)."""
+"""Per-property configuration of the checks: collected from tools/props_d/Cxx.py
+(one file per property: PROP = check configuration, MANIFEST = MANIFEST.json
+texts, GENERATORS = translator functions)."""
+import importlib.util
+import os
 
 TB_COMMON = [
     "Coq 8.16.1 kernel (coqc, full .vo build; vm_compute used for finite certificates and witnesses; native_compute not used)",
@@ -8,26 +12,17 @@ TB_COMMON = [
     "Coq.Floats.SpecFloat as the meaning of IEEE-754 binary64/binary32 operations (validated bit-for-bit on every case that uses floats)",
 ]
 
-PROPS = {
-    "C13": dict(
-        bin="c13",
-        run_targets=["Run/RunC13.vo"],
-        prop_targets=["Properties/C13.vo"],
-        cases=dict(quick=1500, thorough=12000),
-        level="proof",
-        rule="cases drawn from 9 families (small alphabet, random, ties, one dominant, perfect partition exists, zeros, "
-             "long+loose tolerance, tiny, large values) x 8 tolerance choices, plus a malformed stream (partition length "
-             "shorter/longer/empty); distinct = distinct (weights, tolerance bits, partition length); non-trivial = at "
-             "least 3 weights and matching lengths",
-        class_names={0: "Ok", 1: "NotFound", 2: "other error", 3: "panic", 4: "hang"},
-        trusted_base=TB_COMMON + [
-            "axioms: none (every theorem of Properties/C13.v is closed under the global context)",
-            "modelled, not verified: i64 overflow of the weight sum (contract: sums do not overflow), f64 weights (run with integer weights only)",
-        ],
-        assumptions=[
-            "weights are non-negative i64 whose sum does not overflow",
-            "num_traits FromPrimitive::from_f64 for i64 = truncation toward zero, None outside [-2^63, 2^63)",
-            "sort_unstable_by on (weight, index) pairs is a sort (indices distinct, so the order is total)",
-        ],
-    ),
-}
+PROPS = {}
+MANIFESTS = {}
+_d = os.path.join(os.path.dirname(os.path.abspath(__file__)), "props_d")
+for _f in sorted(os.listdir(_d)):
+    if not _f.endswith(".py"):
+        continue
+    _spec = importlib.util.spec_from_file_location("props_d_" + _f[:-3], os.path.join(_d, _f))
+    _m = importlib.util.module_from_spec(_spec)
+    _spec.loader.exec_module(_m)
+    if hasattr(_m, "PROP"):
+        _p = dict(_m.PROP)
+        _p["trusted_base"] = TB_COMMON + _p.get("trusted_base", [])
+        PROPS[_f[:-3]] = _p
+        MANIFESTS[_f[:-3]] = _m.MANIFEST
